@@ -48,6 +48,7 @@ let show_outcome = function
   | NotFound -> "404"
   | MethodNotAllowed ms -> "405 " ^ String.concat "|" (List.map csv_of_nlist ms)
   | WsMismatch -> "WS"
+  | Raised u -> if u then "UNSUPPORTED" else "EXN ValueError"
 let bres f = function BOk x -> f x | BValueError -> "VALUEERROR" | BUnsupported -> "UNSUPPORTED"
 let () = iter_lines (fun line ->
   match fields line with
